@@ -43,7 +43,7 @@ func genPlan(t *rapid.T) Plan {
 	if eff <= 0 {
 		eff = runtime.GOMAXPROCS(-1)
 	}
-	p.N = rapid.SampledFrom([]int{0, 1, 2, eff - 1, eff, eff + 1, 50, 300, 50, 300, 4096, 4160, 8192}).Draw(t, "n") // thousands: hand-out strategies change with size
+	p.N = rapid.SampledFrom([]int{0, 1, 2, eff - 1, eff, eff + 1, 50, 300, 50, 300, 4096, 4160, 8192, 4097, 5003, 8191}).Draw(t, "n") // thousands: hand-out strategies change with size
 	if p.N < 0 {
 		p.N = 0
 	}
